@@ -87,17 +87,76 @@ def plan_C15(b, tier, seed):
             t += [B_bigint(b, nl, seed + k, 30000) for k in range(3)]
     return t
 
-PLANS = {"C01": plan_C01, "C02": plan_C02, "C15": plan_C15}
+def A_curve(b, cfg, mode, workers=4):
+    return lambda: toy_replay(b, "curve", "MC_Curve", cfg, mode, workers=workers)
+
+def B_curve(b, cfg, seed, n, profile, timeout=1200):
+    return lambda: trace_validate(b, "curve", "Trace_Curve", cfg, seed, n, timeout=timeout, rec_args=["--profile", profile],
+                                  label="B:curve:%s:%s:seed%d:n%d" % (cfg, profile, seed, n))
+BIG_CURVES = ["bls12_381_g1", "bls12_381_g2", "secp256k1", "mnt4_753_g1", "bn384_g1", "ed_on_bls12_381"]
+
+SW_TOY = ["sw13_0_2", "sw19_0_2", "sw31_0_3", "sw13_0_4", "sw19_0_8", "sw13_1_6", "sw17_1_3", "sw13_1_4", "sw13_1_0",
+          "sw31_1_29", "sw23_1_16", "sw23_1_4"]
+SW_EXT = ["sw_f7_2_a0", "sw_f7_2_a1", "sw_f13_2_a0", "sw_f7_3_a0"]
+TE_TOY = ["te13_1_7", "te13_12_6", "te17_16_6", "te29_1_3", "te29_28_2", "te29_1_2", "te31_1_6", "te13_2_4", "te29_2_3"]
+
+def plan_C03(b, tier, seed):
+    t = []
+    if tier == "quick":
+        for c in ["sw13_0_2", "sw13_1_0", "sw13_1_4", "sw19_0_8", "sw23_1_16", "sw_f7_2_a0", "te13_1_7", "te13_12_6", "te29_1_2", "te13_2_4"]:
+            t += [A_curve(b, c, "arith"), A_curve(b, c, "group")]
+        t += [A_curve(b, "sw_f7_3_a0", "group")]
+        t += [B_curve(b, c, seed, 800, "group") for c in BIG_CURVES]
+    else:
+        for c in SW_TOY + TE_TOY + ["sw_f7_2_a0", "sw_f7_2_a1"]:
+            t += [A_curve(b, c, "arith", workers=6), A_curve(b, c, "group")]
+        t += [A_curve(b, "sw_f13_2_a0", "arith", workers=8), A_curve(b, "sw_f13_2_a0", "group"), A_curve(b, "sw_f7_3_a0", "group")]
+        t += [B_curve(b, c, seed + k, 6000, "group", 2400) for c in BIG_CURVES for k in range(2)]
+    return t
+
+def plan_C04(b, tier, seed):
+    t = []
+    cs = ["sw13_0_2", "sw13_1_0", "sw19_0_8", "sw31_1_29", "sw_f7_2_a0", "te13_1_7", "te29_1_2", "te13_2_4"] if tier == "quick" else SW_TOY + TE_TOY + SW_EXT
+    t += [A_curve(b, c, "mul") for c in cs]
+    if tier == "quick":
+        t += [B_curve(b, c, seed, 150, "mul") for c in BIG_CURVES]
+    else:
+        t += [B_curve(b, c, seed + k, 1500, "mul", 3000) for c in BIG_CURVES for k in range(2)]
+    return t
+
+def plan_C12(b, tier, seed):
+    cs = ["sw13_0_4", "sw13_1_0", "sw13_1_4", "sw19_0_8", "sw31_1_29", "sw23_1_16", "sw_f7_2_a0", "te13_1_7", "te29_1_2", "te13_2_4"] if tier == "quick" else SW_TOY + TE_TOY + SW_EXT
+    t = [A_curve(b, c, "subgroup") for c in cs]
+    if tier == "quick":
+        t += [B_curve(b, c, seed, 250, "subgroup") for c in BIG_CURVES]
+    else:
+        t += [B_curve(b, c, seed + k, 2500, "subgroup", 3000) for c in BIG_CURVES for k in range(2)]
+    return t
+
+PLANS = {"C03": plan_C03, "C04": plan_C04, "C12": plan_C12, "C01": plan_C01, "C02": plan_C02, "C15": plan_C15}
 
 RULES = {
+ "C03": "A: every transition of CurveMachine over toy curves (all ordered pairs of ALL points of the curve - prime-order subgroup for incomplete Edwards curves - x add/sub/eq/sum/batch-normalise; all points x double/negate/conversions), replayed through every projective rescaling of the operands (all of F_q^* for q = 13, 12 spread values otherwise) and every API variant (proj+proj, mixed, affine+affine, iterator sums). B: seeded programs on shipped curves with randomly rescaled registers; raw Jacobian / extended coordinates decoded by the specification. non-trivial = abstract register changed or a value returned",
+ "C04": "A: every (k, P) with k in 0..2r+2 and P any point of a toy curve, through mul_bigint (with leading zero limbs), affine mul_bigint, bit streams (with/without leading zeros), scalar-field multiplication, w-NAF w=2..6 with fresh / precomputed / too-short tables, batch_mul for 1,2,31,32,33 scalars and three table sizings. B: boundary scalars (0,1,r-1,r,r+1,2^64-1,2^64N-1,random) on shipped curves, spec computes k.P by its own double-and-add",
+ "C12": "A: all points of toy curves with cofactor 1,2,3,4,6,8 (so mostly outside the subgroup): subgroup test vs r.P = O, clear_cofactor vs h.P, mul_by_cofactor, mul_by_cofactor_inv on the subgroup. B: shipped curves with points from arbitrary coordinates; clear_cofactor vs the standardised effective cofactor (BLS12-381 G1: 1-x, G2: h2(3x^2-3)), endomorphism-based subgroup tests vs the definition",
  "C15": "A: BigIntMachine over the limb-boundary alphabet (NL<=2: all limb combinations from {0,1,2,2^31,2^63-1,2^63,2^64-2,2^64-1}; larger NL: one special limb, others 0 or all-ones): all ordered pairs x binary operations, every value x unary operations / shifts {0,1,63,64,65,127,128,64N-1,64N,64N+1,64N+64} / conversions / w-NAF for w in {0,1,2,3,4,5,8,16,20,64}; every transition replayed on ark_ff::BigInt<N> through every API variant. B: seeded boundary-biased programs for N in {1,2,3,4,6,12,13} validated by TLC (relaxed NAF as a relation). non-trivial = register changed or a non-zero/true flag or value returned",
  "C01": "A: every transition of FieldMachine over the listed toy prime fields (all operand tuples x all actions; both the derive-macro and the hand-written trait-default configuration) replayed through every API variant; B: seeded random+boundary programs on shipped fields and the moduli zoo validated by TLC over BigNat. non-trivial = result differs from the operands and from 0/1, counted per distinct (operands, event)",
  "C02": "A: every transition of FieldMachine over toy towers (all elements, or the <=2-nonzero-coordinate sub-alphabet for towers with >3000 elements); B: seeded programs on the shipped BLS12-381 Fq2/Fq6/Fq12 and MNT6 Fq3 validated against schoolbook tower arithmetic over BigNat; Frobenius checked against x^(p^k)",
 }
 
+def _glv_outside(mm, params):
+    e = mm.get("event") or {}
+    return mm.get("cfg") in params.get("cfgs", []) and e.get("op") == "mul" and e.get("outside") is True
+PREDICATES = {"glv_mul_outside_subgroup": _glv_outside}
 HOOK_COMMITS = []
 NOT_APPLICABLE = {}
 META = {
+ "C03": {"text": "TLC enumerates every point of each toy curve by brute force, checks that the textbook affine law of the specification is a group law on it (closure, commutativity, associativity, identity, inverse, order h*r) and that the catalogue entry is right, and emits every transition; the real Projective/Affine code is run on every projective representative of the operands. Full-size: traces of shipped curves with raw coordinates validated by the specification's abstraction functions (on-curve and T*Z = X*Y invariants included).",
+         "note": "Toy curves cover a=0 / a!=0, cofactors 1..8, 2-torsion, base fields F_p, F_{p^2}, F_{p^3}; complete and incomplete Edwards curves. The abstraction function in the harness uses the library's field inversion (checked by C01/C02)."},
+ "C04": {"text": "CurveMachine.Mul is defined as k.P by double-and-add on the specification's own law; TLC explores all (k,P) for k up to 2r+2 on toy curves and the harness requires every multiplication path to produce that point. Full-size traces use boundary scalars including values at and above r and 2^(64N)-1.",
+         "note": "GLV: curves whose mul_projective is GLV-based are only required to be right on the prime-order subgroup; the behaviour outside is a recorded known finding. Toy GLV configurations: see DESIGN."},
+ "C12": {"text": "Subgroup membership is defined as r.P = O and cofactor clearing as multiplication by one fixed integer; TLC explores all points of toy curves with cofactor > 1, and shipped curves are validated on points built from arbitrary coordinates.",
+         "note": "Effective cofactors of optimised maps are constants of the check (RFC 9380 for BLS12-381); curve crates under /repo/curves are covered through vh-curves when built."},
  "C15": {"text": "BigIntMachine defines every BigInteger operation on arbitrary-precision naturals modulo 2^(64N) with exact carry/borrow flags, and the (w-)NAF as the unique recoding computed on unbounded integers (TLC checks that it satisfies the digit constraints and reconstructs, in every explored state). TLC explores the machine exhaustively over the limb-boundary alphabet and every transition is replayed on the real BigInt<N>; random+boundary traces are validated in the other direction.",
          "note": "Operands are boundary-exhaustive + sampled, not all of 2^(64N). Window sizes above 20 are not modelled (digits must fit TLC integers). doc(hidden) const helpers (const_num_bits, two_adic_valuation) are only used inside their documented preconditions."},
  "C01": {"text": "TLC explores FieldMachine over toy prime fields exhaustively (every operand tuple, every action) and checks the field axioms on the specification's own definitions; every explored transition is replayed on the real ark-ff code (derive-macro and hand-written trait-default configurations, every API variant). For full-size moduli (shipped fields and a zoo of 1..13-limb primes with/without spare bit, no-carry-eligible or not, Mersenne, Goldilocks, 2^255-19) seeded random and boundary programs are recorded from the real code and validated by TLC as behaviours of the same machine over arbitrary-precision naturals; raw Montgomery limbs are decoded by the specification and must be canonical.",
